@@ -60,6 +60,12 @@ def run(ctx):
         if kind == "roundtrip":
             check_roundtrip(ctx, utils)
             continue
+        # generators must return fresh circuits: wreck one instance of every block, then generate the one under check
+        for gen, args in (("half_adder", ()), ("full_adder", ()), ("adder", (2,)), ("mux", (2,)), ("popcount", (2,)), (kind, tuple(p[1:]))):
+            junk, _e = call(getattr(logic, gen), *args)
+            if junk is not None:
+                junk.graph.clear()
+                junk.blackboxes.clear()
         c, e = call(getattr(logic, kind), *p[1:])
         det = {"case": cid}
         if e is not None:
